@@ -257,6 +257,9 @@ func (e *Engine) verifyFunc(fi *FuncInfo) *FuncResult {
 	res.Obls = c.obls
 	res.Outside = c.outside
 	res.Notes = c.notes
+	for _, sc := range c.staleClauses {
+		res.Notes = append(res.Notes, "loop clause does not apply to the current code and was dropped: "+sc)
+	}
 	for k := range c.trustedUsed {
 		res.Trusted = append(res.Trusted, k)
 	}
@@ -637,6 +640,9 @@ func (e *Engine) verifyLemma(l *Lemma) *FuncResult {
 	res.Obls = c.obls
 	res.Outside = c.outside
 	res.Notes = c.notes
+	for _, sc := range c.staleClauses {
+		res.Notes = append(res.Notes, "loop clause does not apply to the current code and was dropped: "+sc)
+	}
 	for k := range c.trustedUsed {
 		res.Trusted = append(res.Trusted, k)
 	}
@@ -871,6 +877,9 @@ func (e *Engine) verifyClosure(fi *FuncInfo, base, nth string) *FuncResult {
 	res.Obls = c.obls
 	res.Outside = c.outside
 	res.Notes = c.notes
+	for _, sc := range c.staleClauses {
+		res.Notes = append(res.Notes, "loop clause does not apply to the current code and was dropped: "+sc)
+	}
 	for t := range c.trustedUsed {
 		res.Trusted = append(res.Trusted, t)
 	}
